@@ -46,7 +46,7 @@ class Item:
 class Cmd:
     """One parsed command (strict)."""
     __slots__ = ("verb", "keys", "flags", "exptime", "nbytes", "data", "cas", "delta",
-                 "noreply", "args", "tag", "raw")
+                 "noreply", "args", "tag", "raw", "reply")
 
     def __init__(self, verb, **kw):
         self.verb = verb
@@ -60,6 +60,7 @@ class Cmd:
         self.noreply = kw.get("noreply", False)
         self.args = kw.get("args", [])
         self.tag = None
+        self.reply = None       # what the server answered (also recorded for noreply commands, which never see it)
         self.raw = kw.get("raw", b"")
 
     def sig(self):
@@ -342,6 +343,7 @@ class Session:
             self.cmds.append(cmd)
             self.server.cmdlog.append(cmd)
             reply, close = self.server.execute(cmd)
+            cmd.reply = reply
             if close:
                 self.closed = True
             if reply and not cmd.noreply:
